@@ -20,6 +20,10 @@ def trailingZeros64 (x : BitVec 64) : BitVec 64 :=
 def onesCount64 (x : BitVec 64) : BitVec 64 :=
   BitVec.ofNat 64 ((List.range 64).foldl (fun acc i => if x.getLsbD i then acc + 1 else acc) 0)
 
+/-- element of a package-level table of 64-bit integers (Go panics out of range; 0 here, and the theorems stay in range) -/
+def tbl (l : List (BitVec 64)) (i : BitVec 64) : BitVec 64 := l.getD i.toNat 0#64
+def tblLen (l : List (BitVec 64)) : BitVec 64 := BitVec.ofNat 64 l.length
+
 end OtterVerif.Bv
 
 namespace OtterVerif
